@@ -275,6 +275,14 @@ class Terms(object):
                 except AnalysisError:
                     continue
                 v = self._decided(t)
+                if v is not None and t[0] == "cmp" and \
+                        t[2][0] == "const" and t[3][0] == "const" and \
+                        self._in_loop(n):
+                    # a comparison of two constants inside a loop is an
+                    # artefact of pruning edges for every iteration at once
+                    # (a loop-carried variable left with its initial value
+                    # only): not used to prune further
+                    v = None
                 if v is not None and v != pol:
                     dead.add(n.id)
             if dead == self.dead:
@@ -283,6 +291,14 @@ class Terms(object):
             self._solve()
             self._cache = {}
             self.__dict__.pop("_arities", None)
+
+    def _in_loop(self, n):
+        a = getattr(n, "ast", None)
+        while a is not None and a is not self.fn:
+            if isinstance(a, (ast.For, ast.While)):
+                return True
+            a = getattr(a, "_parent", None)
+        return False
 
     def _decided(self, t):
         """Truth value of condition term ``t`` under the hypotheses."""
